@@ -14,7 +14,7 @@ use crate::proto::{Ctx, attrs};
 pub fn meta() -> Meta {
     Meta {
         level: "model_checking",
-        rule: "(a) per kind {bdd,bcdd,zbdd} and each of the 6 orders: all 256 functions built by route A (table -> reduce/then_insert) and by route B (DNF over minterms through the kind's own operators, with a gc between the routes), all 65536 pairs compared: handles equal iff tables equal, Hash and Ord consistent. (a') per kind and order, with all 256 canonical handles alive: the result of every operation of the API (not, cofactors, 8 connectives, ite, restrict and pick_cube_dd_set for all 27 cubes, pick_cube_dd for all 8 choice vectors, quantifiers, apply-and-quantify, substitution; ZBDD: subset0/1, change, union, intsec, diff) is read back and must be the very handle of the table it denotes (==, Hash). (b) histories: every sequence of depth d (quick 4, thorough 5..6) over 13 actions on three handle registers (5 kind-specific operations, clone, 2 drops, gc, add_vars+new variable, reverse/rotate reordering, drop on another thread) for bdd, bcdd, zbdd, mtbdd, tdd, executed on a fresh manager per history (64-node store) with cache capacities 1 and 1024; after every step: all live register pairs and each register vs. a fresh route-A rebuild. states = distinct model states (order, register tables), transitions = checked steps (tree edges), executions = histories run on the real manager. Non-trivial: the history contains at least one non-operation action.",
+        rule: "(a) per kind {bdd,bcdd,zbdd} and each of the 6 orders: all 256 functions built by route A (table -> reduce/then_insert) and by route B (DNF over minterms through the kind's own operators, with a gc between the routes), all 65536 pairs compared: handles equal iff tables equal, Hash and Ord consistent. (a') per kind and order, with all 256 canonical handles alive: the result of every operation of the API (not, cofactors, 8 connectives, ite, restrict and pick_cube_dd_set for all 27 cubes, pick_cube_dd for all 8 choice vectors, quantifiers, apply-and-quantify, substitution; ZBDD: subset0/1, change, union, intsec, diff) is read back and must be the very handle of the table it denotes (==, Hash). (b) histories: every sequence of depth d (quick 4, thorough 5..6) over 13 actions on three handle registers (5 kind-specific operations, clone, 2 drops, gc, add_vars+new variable, reverse/rotate reordering, drop on another thread) for bdd, bcdd, zbdd, mtbdd (I64; also F64 with products reaching -0.0, and a constant-heavy one-variable alphabet), tdd, executed on a fresh manager per history (64-node store) with cache capacities 1 and 1024; after every step: all live register pairs and each register vs. a fresh route-A rebuild. states = distinct model states (order, register tables), transitions = checked steps (tree edges), executions = histories run on the real manager. Non-trivial: the history contains at least one non-operation action.",
         assumptions: vec![
             "histories are not pruned on abstract-state equality (cache/free-list/tombstone state is not observable), only disabled actions are cut".into(),
             "random functions over 4..8 variables not enumerated; index backend (pointer backend: C20)".into(),
@@ -34,6 +34,7 @@ pub fn shards(tier: &str) -> Vec<String> {
         }
     }
     v.extend(super::allops::shards(tier));
+    v.extend(hist::shards_for(&["mtbddf", "mtbddc"], &["n64c16t1"], if tier == "thorough" { 2 } else { 1 }));
     if tier == "thorough" {
         v.extend(hist::shards_for(&KINDS, &["n64c1t1", "n64c1024t1", "n64c16t2"], 2));
     } else {
